@@ -59,6 +59,8 @@ type env struct {
 	edDID   string
 	edVM    string
 	credOpt []verifiable.CredentialOpt
+	// lastDisc: number of SD-JWT disclosures of the credential projectCred saw last (0 for other credentials)
+	lastDisc int
 }
 
 func newEnv() *env {
@@ -69,6 +71,10 @@ func newEnv() *env {
 
 	for t := 2; t <= 4; t++ {
 		terms["T"+strconv.Itoa(t)] = vocab + "T" + strconv.Itoa(t)
+	}
+
+	for o := 1; o <= 9; o++ {
+		terms["o"+strconv.Itoa(o)] = vocab + "o" + strconv.Itoa(o)
 	}
 
 	content, err := json.Marshal(map[string]interface{}{"@context": terms})
@@ -103,9 +109,20 @@ func valJSON(v Val) interface{} {
 		return v.N
 	case "s":
 		return "s" + strconv.Itoa(v.S)
+	case "a":
+		return []interface{}{"e" + strconv.Itoa(v.S), int64(v.S)}
 	default:
 		return v.B
 	}
+}
+
+// keyPath is the dotted member path of a leaf key below credentialSubject.
+func keyPath(k int) string {
+	if k >= 100 {
+		return "o" + strconv.Itoa(k/100) + ".a" + strconv.Itoa(k%100)
+	}
+
+	return "a" + strconv.Itoa(k)
 }
 
 func didOf(n int) string { return "did:ex:" + strconv.Itoa(n) }
@@ -123,6 +140,17 @@ func credJSON(c Cred, idx int) map[string]interface{} {
 	}
 
 	for _, a := range c.Attrs {
+		if a.K >= 100 {
+			o := "o" + strconv.Itoa(a.K/100)
+			if _, ok := subj[o]; !ok {
+				subj[o] = map[string]interface{}{}
+			}
+
+			subj[o].(map[string]interface{})["a"+strconv.Itoa(a.K%100)] = valJSON(a.V)
+
+			continue
+		}
+
 		subj["a"+strconv.Itoa(a.K)] = valJSON(a.V)
 	}
 
@@ -153,6 +181,16 @@ func (e *env) buildCred(c Cred, idx int) (*verifiable.Credential, error) {
 		return nil, fmt.Errorf("parse issuer json: %w", err)
 	}
 
+	if c.SD {
+		// issuer: every credentialSubject leaf becomes a disclosure (structured claims); holder: parse the combined format
+		combined, err := vc.MakeSDJWT(verifiable.GetJWTSigner(e.ed, "EdDSA"), e.edVM)
+		if err != nil {
+			return nil, fmt.Errorf("make sd-jwt: %w", err)
+		}
+
+		return verifiable.ParseCredential([]byte(combined), e.credOpt...)
+	}
+
 	if c.JWT != 0 {
 		claims, err := vc.JWTClaims(false)
 		if err != nil {
@@ -173,6 +211,10 @@ func (e *env) buildCred(c Cred, idx int) (*verifiable.Credential, error) {
 		}
 
 		return verifiable.ParseCredential([]byte(jws), e.credOpt...)
+	}
+
+	if c.MapSubject {
+		vc.Subject = credJSON(c, idx)["credentialSubject"]
 	}
 
 	if len(c.Proofs) == 0 {
@@ -340,7 +382,7 @@ func defJSON(p Defn) map[string]interface{} {
 				ps := []string{}
 
 				for _, k := range f.Paths {
-					ps = append(ps, "$.credentialSubject.a"+strconv.Itoa(k))
+					ps = append(ps, "$.credentialSubject."+keyPath(k))
 				}
 
 				fm["path"] = ps
@@ -440,11 +482,38 @@ func atoiSuffix(s, prefix string) (int, bool) {
 	return n, err == nil
 }
 
+func projVal(v interface{}) Val {
+	switch x := v.(type) {
+	case float64:
+		return Val{T: "n", N: int64(x)}
+	case string:
+		sn, _ := atoiSuffix(x, "s")
+		return Val{T: "s", S: sn}
+	case bool:
+		return Val{T: "b", B: x}
+	case []interface{}:
+		// arrays are [ "e<code>", code ]; anything else (re-indexed, truncated) projects to another code
+		if len(x) == 2 {
+			if s0, ok := x[0].(string); ok {
+				if n, ok := atoiSuffix(s0, "e"); ok {
+					if f, ok := x[1].(float64); ok && int(f) == n {
+						return Val{T: "a", S: n}
+					}
+				}
+			}
+		}
+
+		return Val{T: "a", S: 900 + len(x)}
+	default:
+		return Val{T: "s", S: 999}
+	}
+}
+
 // projected credential + the index of the holder's credential it derives from (issuanceDate)
 func (e *env) projectCred(raw interface{}) (Cred, int, error) {
 	var m map[string]interface{}
 
-	isJWT := false
+	isJWT, isSD, nDisc := false, false, 0
 
 	switch v := raw.(type) {
 	case string:
@@ -453,6 +522,17 @@ func (e *env) projectCred(raw interface{}) (Cred, int, error) {
 		vc, err := verifiable.ParseCredential([]byte(v), e.credOpt...)
 		if err != nil {
 			return Cred{}, -1, fmt.Errorf("re-parse jwt vc: %w", err)
+		}
+
+		if vc.SDJWTHashAlg != "" {
+			// what a verifier can read: the claims the presented disclosures open
+			isSD = true
+			nDisc = len(vc.SDJWTDisclosures)
+
+			vc, err = vc.CreateDisplayCredential(verifiable.DisplayAllDisclosures())
+			if err != nil {
+				return Cred{}, -1, fmt.Errorf("display sd-jwt vc: %w", err)
+			}
 		}
 
 		vc.JWT = ""
@@ -471,7 +551,7 @@ func (e *env) projectCred(raw interface{}) (Cred, int, error) {
 		return Cred{}, -1, fmt.Errorf("credential of unexpected JSON kind %T", raw)
 	}
 
-	c := Cred{}
+	c := Cred{SD: isSD}
 	if isJWT {
 		c.JWT = 1
 	}
@@ -525,30 +605,40 @@ func (e *env) projectCred(raw interface{}) (Cred, int, error) {
 				continue
 			}
 
+			if strings.HasPrefix(k, "_sd") {
+				continue
+			}
+
+			if on, ok := atoiSuffix(k, "o"); ok {
+				if obj, isObj := v.(map[string]interface{}); isObj {
+					for k2, v2 := range obj {
+						if strings.HasPrefix(k2, "_sd") {
+							continue
+						}
+
+						n2, ok2 := atoiSuffix(k2, "a")
+						if !ok2 {
+							n2 = 99
+						}
+
+						c.Attrs = append(c.Attrs, Attr{K: 100*on + n2, V: projVal(v2)})
+					}
+
+					continue
+				}
+			}
+
 			n, ok := atoiSuffix(k, "a")
 			if !ok {
 				n = 99
 			}
 
-			var val Val
-
-			switch x := v.(type) {
-			case float64:
-				val = Val{T: "n", N: int64(x)}
-			case string:
-				sn, _ := atoiSuffix(x, "s")
-				val = Val{T: "s", S: sn}
-			case bool:
-				val = Val{T: "b", B: x}
-			default:
-				val = Val{T: "s", S: 999}
-			}
-
-			c.Attrs = append(c.Attrs, Attr{K: n, V: val})
+			c.Attrs = append(c.Attrs, Attr{K: n, V: projVal(v)})
 		}
 	}
 
 	sortAttrs(c.Attrs)
+	e.lastDisc = nDisc
 
 	if ps, ok := m["proof"]; ok {
 		var list []interface{}
@@ -589,6 +679,8 @@ type Obs struct {
 	Fmt      int       `json:"fmt,omitempty"`
 	Creds    []Cred    `json:"creds,omitempty"`
 	Src      []int     `json:"src,omitempty"`
+	Disc     []int     `json:"disclosures,omitempty"`
+	MDisc    []int     `json:"matched_disclosures,omitempty"`
 	Maps     []Mapping `json:"maps,omitempty"`
 	Disable  bool      `json:"disable_schema"`
 	Match    string    `json:"match,omitempty"` // ok | err
@@ -658,6 +750,7 @@ func (e *env) runCase(c Case) (*Obs, error) {
 
 		o.Creds = append(o.Creds, pc)
 		o.Src = append(o.Src, src)
+		o.Disc = append(o.Disc, e.lastDisc)
 	}
 
 	sub, _ := vpMap["presentation_submission"].(map[string]interface{})
@@ -730,15 +823,28 @@ func (e *env) runCase(c Case) (*Obs, error) {
 
 	for _, k := range ids {
 		mv := res[k]
-		jwt := mv.Credential.JWT
-		mv.Credential.JWT = ""
+		got := mv.Credential
+		nd := 0
+		sd := got.SDJWTHashAlg != ""
 
-		b, err := mv.Credential.MarshalJSON()
+		if sd {
+			nd = len(got.SDJWTDisclosures)
+
+			got, err = got.CreateDisplayCredential(verifiable.DisplayAllDisclosures())
+			if err != nil {
+				return nil, fmt.Errorf("display matched sd-jwt vc: %w", err)
+			}
+		}
+
+		jwt := got.JWT
+		got.JWT = ""
+
+		b, err := got.MarshalJSON()
 		if err != nil {
 			return nil, err
 		}
 
-		mv.Credential.JWT = jwt
+		got.JWT = jwt
 
 		var m map[string]interface{}
 		if err := json.Unmarshal(b, &m); err != nil {
@@ -750,9 +856,12 @@ func (e *env) runCase(c Case) (*Obs, error) {
 			return nil, err
 		}
 
-		if jwt != "" {
+		if jwt != "" || sd {
 			pc.JWT = 1
 		}
+
+		pc.SD = sd
+		o.MDisc = append(o.MDisc, nd)
 
 		n, _ := atoiSuffix(k, "d")
 		o.Matched = append(o.Matched, Matched{ID: n, Cred: pc})
